@@ -268,7 +268,7 @@ def rule_border(ctx: Ctx) -> None:
                 ctx.ob("C04.BORDER", rel, c, f"{q}: mask_border guarded by offset > 0", okg, detail="with a null offset the slices [:0] / [-0:] cover the whole image: every pixel would be reset to bit 0", expected="if <offset_row_col> > 0")
                 later = [s for s in mask_stores(tree, mt, rel, f) if s.st.lineno > c.lineno and not any(x is c for x in ast.walk(s.st))]
                 ctx.ob("C04.BORDER", rel, c, f"{q}: mask_border is the last mask writer", not later, detail=f"flags are written after the border reset: `{later[0].text()[:100]}`" if later else "")
-    ctx.floor("C04.BORDER(call sites)", n, 4)
+    ctx.floor("C04.BORDER(call sites)", n, 2)
     # every function that writes flags of a *step* on a dataset with a window offset resets the border last
     need = [("pandora/matching_cost/matching_cost.py", "AbstractMatchingCost.cv_masked"), ("pandora/validation/validation.py", "CrossCheckingAccurate.disparity_checking"), ("pandora/validation/interpolated_disparity.py", "McCnnInterpolation.interpolated_disparity")]
     for rel, q in need:
